@@ -27,6 +27,9 @@ def run(cmd, cwd=None, timeout=1800):
         raise
     return p.returncode, out
 
+# VERIF_SNAPSHOT=<dir>: run the check from a frozen copy of /verif (bin/, harness/, known_findings.json), so that
+# work on the harnesses can go on while seeds are being processed
+SNAP = os.environ.get("VERIF_SNAPSHOT", "/verif")
 CHECK_TIMEOUT = 1200  # a check that does not finish in 20 minutes on a seeded tree counts as "not detected"
 
 def main():
@@ -82,7 +85,7 @@ def main():
             assert rc == 0, "patch does not apply to /repo: " + o
         try:
             t0 = time.time()
-            rc, o = run(f"/verif/bin/vcheck run --property {prop} --tier {tier}" + (f" --repo {wt}" if scratch else ""), cwd="/verif", timeout=CHECK_TIMEOUT)
+            rc, o = run(f"{SNAP}/bin/vcheck run --property {prop} --tier {tier}" + (f" --repo {wt}" if scratch else ""), cwd=SNAP, timeout=CHECK_TIMEOUT)
             wall = time.time() - t0
             lines = [l for l in o.splitlines() if l.startswith(("VIOLATION", "  harness=", "OK ", "INCONCLUSIVE", "TOOL-ERROR", "KNOWN", "TIMEOUT"))][:12]
             detected = rc == 1 and any(l.startswith("VIOLATION") for l in lines)
@@ -91,7 +94,8 @@ def main():
             if not scratch:
                 run("git -C /repo checkout -- .")
                 # evidence was overwritten by a run on a modified tree: restore the committed one
-                run(f"git -C /verif checkout -- evidence/{prop}.json")
+                if SNAP == "/verif":
+                    run(f"git -C /verif checkout -- evidence/{prop}.json")
     meta = {"name": name, "property": prop, "valid_seed": valid, "needs_to_manifest": needs,
             "demo": "zz_seed_demo_test.go (TestSeedDemo) in " + pkg, "detected_by_check": detected, "tier": tier,
             "check_output": lines, "ran": ran}
